@@ -6,6 +6,7 @@
      SVD::min_x(Index n, Index list[]) regularise on a subset of the unknowns
      SVD::min_subset_x()               guard (defect == 0: nothing; defect > n_min: BadRegularization) + the re-orthogonalisation sweep
      SVD::reset(A), reset(A, w), clear()
+     SVD::tol(Float)                   (thorough tier; FAILS on the tree: finding, exclusion predicate GV_EXCL_SVD_TOL_AFTER_DECOMPOSITION)
 
    GHOST TAGS.  The payload of a matrix is opaque here; every Mat carries a ghost tag saying WHICH mathematical object its payload is:
        T_NONE   not a result of the current decomposition
@@ -163,6 +164,13 @@ __CPROVER_requires(self->V == NULL || __CPROVER_rw_ok(self->V, sizeof(Float *)))
 __CPROVER_assigns(self->W, self->inv_W, self->U, self->V)
 __CPROVER_frees(self->U, self->V)
 __CPROVER_ensures(__CPROVER_is_fresh(self->V, ((size_t)self->n + 1) * sizeof(Float *)) && __CPROVER_is_fresh(self->U, ((size_t)self->m + 1) * sizeof(Float *)))
+;
+
+/* set_inv_W(): ASSUMED contract (numeric body, not under contract): recounts the singular values below W_tol * max -- any count in [0, n] */
+void SVD_set_inv_W(struct SVD *self)
+__CPROVER_requires(0 <= self->n && self->n <= MAXDIM)
+__CPROVER_assigns(self->defect, self->W_tol, gv_vcell)
+__CPROVER_ensures(0 <= self->defect && self->defect <= self->n)
 ;
 
 /* arbitrary SVD object satisfying INV_BASE && INV_TAGW */
@@ -360,7 +368,29 @@ GV_CANARY("SVD_clear entry");
 self->gv_dec++;
 //@ end
 
+/* tol(t): a configuration change, like min_x: afterwards the object must be in the state of a fresh object with that tolerance, i.e. the
+   invariant holds for the NEW defect.  The body recounts the defect of an already decomposed object but neither saves minV nor regularises V_.
+   Exclusion predicate of the finding: -DGV_EXCL_SVD_TOL_AFTER_DECOMPOSITION (tol is set before the decomposition only). */
+//@ contract SVD_tol
+__CPROVER_requires(gv_exc == 0 && EPOCH_OK(self) && INV_BASE(self) && INV_TAGW(self))
+#ifdef GV_EXCL_SVD_TOL_AFTER_DECOMPOSITION
+__CPROVER_requires(!self->decomposed)
+#endif
+__CPROVER_assigns(self->W_tol, self->defect, gv_vcell)
+__CPROVER_ensures(gv_exc == 0 && INV_BASE(self) && INV_TAGW(self))
+//@ entry SVD_tol
+GV_CANARY("SVD_tol entry");
+//@ end
+
 //@ harness
+void h_tol(void)
+{
+  struct SVD S; mk_svd(&S);
+  Float t;
+  Index w_decomposed = S.decomposed, w_defect = S.defect;
+  SVD_tol(&S, t);
+  GV_CANARY("h_tol end");
+}
 void h_svd_tail(void)
 {
   struct SVD S; mk_svd(&S);
